@@ -373,6 +373,8 @@ This decides `no new unaudited panic/recursion/loop site`, the enumerated necess
     minmax_guard(m, ctx);
     value_cycle(m, ctx);
     template_cycle(m, ctx);
+    float_tokens(m, ctx);
+    object_cycle(m, ctx);
     // the generators treat notations the linker expands (selection types, COMPONENTS OF) as unreachable!(): the order of
     // the linking steps is what guarantees that none survives (shared with C09.order)
     crate::rules::c09::order(m, ctx, "C08.order");
@@ -398,7 +400,11 @@ fn value_cycle(m: &Model, ctx: &mut Ctx) {
     let value_tld = |n: &str, to: &str| Val::Ctor("Value".into(), vec![named("ToplevelValueDefinition", vec![("name", Val::Str(n.into())), ("associated_type", Val::Ctor("ElsewhereDeclaredType".into(), vec![named("DeclarationElsewhere", vec![("identifier", Val::Str("U".into())), ("parent", Val::none()), ("module", Val::none())])], Map::new())), ("value", reference(to))])], Map::new());
     let int_ty = Val::Ctor("Integer".into(), vec![named("Integer", vec![("distinguished_values", Val::none()), ("constraints", Val::List(vec![]))])], Map::new());
     let type_tld = |n: &str, ty: Val| Val::Ctor("Type".into(), vec![named("ToplevelTypeDefinition", vec![("name", Val::Str(n.into())), ("ty", ty)])], Map::new());
-    let defs: Vec<(&str, Val)> = vec![("T", type_tld("T", int_ty.clone())), ("U", type_tld("U", int_ty.clone())), ("b", value_tld("b", "c")), ("c", value_tld("c", "b"))];
+    let self_ref = |n: &str| Val::Ctor("ElsewhereDeclaredType".into(), vec![named("DeclarationElsewhere", vec![("identifier", Val::Str(n.into())), ("parent", Val::none()), ("module", Val::none()), ("constraints", Val::List(vec![]))])], Map::new());
+    // `S ::= S` is what the scope of a template holds when the actual parameter is named like the dummy reference (`Foo {S}`
+    // for `Foo {S} ::= ..`): module-level cycles are removed before linking, this one is made afterwards
+    let x_value = Val::Ctor("Value".into(), vec![named("ToplevelValueDefinition", vec![("name", Val::Str("x".into())), ("associated_type", self_ref("S")), ("value", Val::Ctor("Integer".into(), vec![Val::int(5)], Map::new()))])], Map::new());
+    let defs: Vec<(&str, Val)> = vec![("T", type_tld("T", int_ty.clone())), ("U", type_tld("U", int_ty.clone())), ("b", value_tld("b", "c")), ("c", value_tld("c", "b")), ("S", type_tld("S", self_ref("S"))), ("x", x_value)];
     let depth = std::cell::Cell::new(0usize);
     let hook = |_: &Evaluator, name: &str, a: &[Val]| -> Option<Result<Val, String>> {
         match (name, a.first()) {
@@ -408,7 +414,7 @@ fn value_cycle(m: &Model, ctx: &mut Ctx) {
                 Some(Val::Str(k)) => Some(Ok(defs.iter().find(|(n, _)| n == k).map(|(_, v)| Val::some(v.clone())).unwrap_or(Val::none()))),
                 _ => Some(Err("tlds.get with a key that is not a name".into())),
             },
-            (".link_with_type", _) => {
+            (".link_with_type", _) | ("Self::link_enum_or_distinguished", _) | ("ASN1Value::link_enum_or_distinguished", _) => {
                 depth.set(depth.get() + 1);
                 if depth.get() > 12 {
                     Some(Err("$unbounded".into()))
@@ -418,6 +424,8 @@ fn value_cycle(m: &Model, ctx: &mut Ctx) {
             }
             (".int_type", _) => Some(Ok(Val::Sym("INT".into()))),
             (".is_const_type", _) => Some(Ok(Val::Bool(false))),
+            // Box<ASN1Value> -> &mut ASN1Value
+            (".borrow_mut", Some(v)) | (".borrow", Some(v)) if a.len() == 1 && matches!(v, Val::Ctor(..)) => Some(Ok(v.clone())),
             (".as_str", Some(Val::Ctor(n, p, _))) if n == "ElsewhereDeclaredType" => Some(Ok(p.first().and_then(|d| match d { Val::Ctor(_, _, f) => f.get("identifier").cloned(), _ => None }).unwrap_or(Val::Str("?".into())))),
             ("grammar_error!", _) => Some(Ok(Val::Sym("GrammarError".into()))),
             _ => None,
@@ -432,12 +440,16 @@ fn value_cycle(m: &Model, ctx: &mut Ctx) {
         ("ENUMERATED", Val::Ctor("Enumerated".into(), vec![Val::Opaque("enumerated".into())], Map::new()), Val::some(Val::Str("E".into()))),
         ("type-reference", Val::Ctor("ElsewhereDeclaredType".into(), vec![named("DeclarationElsewhere", vec![("identifier", Val::Str("T".into())), ("parent", Val::none()), ("module", Val::none())])], Map::new()), Val::none()),
     ];
-    for (label, ty, type_name) in governors {
+    let scenarios: Vec<(&str, Val, Val, Val)> = governors.into_iter().map(|(l, t, n)| (l, t, n, reference("b"))).chain(vec![
+        ("scope-self-reference:value-reference", self_ref("S"), Val::none(), reference("x")),
+        ("scope-self-reference:literal", self_ref("S"), Val::none(), Val::Ctor("Integer".into(), vec![Val::int(5)], Map::new())),
+    ]).collect();
+    for (label, ty, type_name, value) in scenarios {
         let key = format!("cyclic-value-references:{}", label);
         ctx.oblige("C08.refchain", &key, true);
         depth.set(0);
         let mut env = Env::new();
-        env.insert("self".into(), reference("b"));
+        env.insert("self".into(), value);
         env.insert(params.first().cloned().unwrap_or("tlds".into()), Val::Opaque("tlds".into()));
         env.insert(params.get(1).cloned().unwrap_or("ty".into()), ty);
         env.insert(params.get(2).cloned().unwrap_or("type_name".into()), type_name);
@@ -449,6 +461,8 @@ fn value_cycle(m: &Model, ctx: &mut Ctx) {
             Ok(_) => {}
             Err(e) if e.contains("while loop did not terminate") => ctx.violate("C08.refchain", &key, &f.file, f.line,
                 &format!("`a T ::= b  b U ::= c  c U ::= b` with a {} governor: a loop that follows the value references is still running after 64 rounds over 4 definitions — a chain that leads back into itself is not detected, so this input hangs the compiler", label)),
+            Err(e) if e.contains("$unbounded") && label.starts_with("scope-self-reference") => ctx.violate("C08.refchain", &key, &f.file, f.line,
+                &format!("a value governed by `S` where the scope holds `S ::= S` (`Foo {{S}} ::= SEQUENCE {{ a S DEFAULT .. }}  Bar ::= Foo {{S}}`), {}: link_with_type / link_enum_or_distinguished are still following the reference after 12 rounds — a type that refers to itself inside a template scope overflows the stack", label)),
             Err(e) if e.contains("$unbounded") => ctx.violate("C08.refchain", &key, &f.file, f.line,
                 &format!("`a T ::= b  b U ::= c  c U ::= b` with a {} governor: link_with_type is still substituting references after 12 rounds — the chain of value references is followed without a visited list, so this input overflows the stack", label)),
             Err(e) => ctx.fail_closed("C08.refchain", &format!("[{}]: {}", key, e)),
@@ -518,6 +532,101 @@ fn template_cycle(m: &Model, ctx: &mut Ctx) {
         Err(e) if e.contains("$unbounded") => ctx.violate("C08.template", "self-instantiating-template", &f.file, f.line,
             "`L {T} ::= SEQUENCE { tail L {T} }  X ::= L {INTEGER}`: resolve_parameters is still expanding L inside its own expansion after 8 rounds — a template that instantiates itself is expanded without end (stack overflow)"),
         Err(e) => ctx.fail_closed("C08.template", &format!("[self-instantiating template]: {}", e)),
+    }
+}
+
+/// C08.float: `quote`'s ToTokens for f64 goes through proc_macro2::Literal::f64_*, which panics on a value that is not
+/// finite. A REAL value reaches the generators as the f64 the lexer produced — `1e999`, a literal of 400 digits and
+/// `{mantissa 1, base 10, exponent 400}` all parse to infinity — so every arm of the rasn generator that binds the payload of
+/// ASN1Value::Real and turns it into tokens must test `is_finite()` first (arm guard or an `if` around the conversion).
+fn float_tokens(m: &Model, ctx: &mut Ctx) {
+    let mut sites = 0;
+    for f in m.fns.iter().filter(|f| f.krate == "rasn-compiler" && f.module.starts_with("generator::rasn") && !f.module.contains("tests")) {
+        for mt in model::matches_in(&f.block) {
+            for arm in &mt.arms {
+                let pat = tok(&arm.pat);
+                let Some(i) = pat.find("ASN1Value::Real(") else { continue };
+                let var: String = pat[i + "ASN1Value::Real(".len()..].chars().take_while(|c| c.is_alphanumeric() || *c == '_').collect();
+                if var.is_empty() || var == "_" {
+                    continue;
+                }
+                let body = tok(&arm.body);
+                let tokenised = [format!("{}.to_token_stream()", var), format!("{}.to_tokens(", var), format!("#{}", var), format!("f64_unsuffixed(*{}", var), format!("f64_suffixed(*{}", var)].iter().any(|n| body.contains(n.as_str()));
+                if !tokenised {
+                    continue;
+                }
+                sites += 1;
+                ctx.func(&f.key);
+                ctx.oblige("C08.float", &format!("{}:{}", f.name, var), true);
+                let guard = arm.guard.as_ref().map(|(_, g)| tok(g)).unwrap_or_default();
+                let test = format!("{}.is_finite()", var);
+                if !(guard.contains(&test) || body.contains(&format!("if{}", test)) || body.contains(&format!("if!{}", test))) {
+                    ctx.violate("C08.float", &format!("unguarded:{}", f.name), &f.file, crate::rules::util::span_line(arm),
+                        &format!("{} turns the REAL value `{}` into tokens without testing `{}.is_finite()`: a literal beyond the range of f64 (`1e999`, 400 digits, {{mantissa 1, base 10, exponent 400}}) is parsed to infinity, and ToTokens for a non-finite f64 panics", f.name, var, var));
+                }
+            }
+        }
+    }
+    ctx.floor("C08.float/sites", sites, 1);
+}
+
+/// C08.objcycle: an information object may be written as a reference to another object (`a CLS ::= { b }`); collect_supertypes
+/// resolves such an object by cloning the referenced one and resolving *that*. On `b CLS ::= { c }  c CLS ::= { b }` this has
+/// no end unless the chain is cut. ToplevelInformationDefinition::collect_supertypes is evaluated (resolve_and_link and its own
+/// recursion followed through the crate's code) on such a circle: it must return — Ok or Err — within eight nested
+/// resolutions.
+fn object_cycle(m: &Model, ctx: &mut Ctx) {
+    use crate::eval::{Env, Evaluator, Val};
+    use crate::rules::util::{const_resolver, inline_all};
+    use std::collections::BTreeMap as Map;
+    let Some(f) = m.fns.iter().find(|f| f.name == "collect_supertypes" && f.self_ty.as_deref() == Some("ToplevelInformationDefinition")) else {
+        ctx.fail_closed("C08.objcycle", "anchor not found: ToplevelInformationDefinition::collect_supertypes");
+        return;
+    };
+    ctx.func(&f.key);
+    ctx.oblige("C08.objcycle", "circular-object-references", true);
+    let consts = const_resolver(m);
+    let named = |n: &str, fields: Vec<(&str, Val)>| Val::Ctor(n.to_string(), vec![], fields.into_iter().map(|(k, v)| (k.to_string(), v)).collect::<Map<_, _>>());
+    let class = Val::Ctor("ByReference".into(), vec![named("ObjectClassDefn", vec![("fields", Val::List(vec![])), ("syntax", Val::none())])], Map::new());
+    let object = |name: &str, refers_to: &str| named("ToplevelInformationDefinition", vec![
+        ("name", Val::Str(name.into())),
+        ("class", class.clone()),
+        ("value", Val::Ctor("Object".into(), vec![named("InformationObject", vec![
+            ("class_name", Val::Str("CLS".into())),
+            ("fields", Val::Ctor("CustomSyntax".into(), vec![Val::List(vec![Val::Ctor("ObjectReference".into(), vec![Val::Str(refers_to.into())], Map::new())])], Map::new())),
+        ])], Map::new())),
+    ]);
+    let mut tlds = crate::eval::new_map();
+    for (n, r) in [("b", "c"), ("c", "b")] {
+        tlds = crate::eval::map_insert(tlds, Val::Str(n.into()), Val::Ctor("Object".into(), vec![object(n, r)], Map::new()));
+    }
+    let depth = std::cell::Cell::new(0usize);
+    let hook = |_: &Evaluator, name: &str, a: &[Val]| -> Option<Result<Val, String>> {
+        match name {
+            // a bare reference never matches the class's WITH SYNTAX
+            "resolve_custom_syntax" => Some(Ok(Val::Ctor("Err".into(), vec![named("GrammarError", vec![("kind", Val::ctor("SyntaxMismatch")), ("details", Val::Str("mismatch".into()))])], Map::new()))),
+            "link_object_fields" => Some(Ok(Val::Ctor("Ok".into(), vec![Val::Unit], Map::new()))),
+            "SyntaxApplication::as_str_or_none" | ".as_str_or_none" => Some(Ok(match a.first() { Some(Val::Ctor(n, p, _)) if n == "ObjectReference" => Val::some(p[0].clone()), _ => Val::none() })),
+            ".resolve_class_reference" => Some(Ok(a[0].clone())),
+            ".collect_supertypes" => {
+                depth.set(depth.get() + 1);
+                if depth.get() > 8 { Some(Err("$unbounded".into())) } else { None }
+            }
+            _ => None,
+        }
+    };
+    let inl = inline_all(m, &["ToplevelInformationDefinition"]);
+    let ev = Evaluator { consts: &consts, call_hook: &hook, inline: Some(&inl) };
+    let tl = f.sig.inputs.iter().filter_map(|a| match a { syn::FnArg::Typed(t) => Some(tok(&t.pat)), _ => None }).next().unwrap_or("tlds".into());
+    let mut env = Env::new();
+    env.insert("self".into(), object("a", "b"));
+    env.insert(tl, tlds);
+    match ev.eval_fn_body(&f.block, &mut env) {
+        Ok(Val::Ctor(n, _, _)) if n == "Ok" || n == "Err" => {}
+        Ok(o) => ctx.fail_closed("C08.objcycle", &format!("[circular objects]: result {}", o.show().chars().take(120).collect::<String>())),
+        Err(e) if e.contains("$unbounded") => ctx.violate("C08.objcycle", "circular-object-references", &f.file, f.line,
+            "`a CLS ::= { b }  b CLS ::= { c }  c CLS ::= { b }`: collect_supertypes is still resolving referenced objects inside one another after 8 rounds — objects that refer to each other in a circle are resolved without end (stack overflow)"),
+        Err(e) => ctx.fail_closed("C08.objcycle", &format!("[circular objects]: {}", e)),
     }
 }
 
